@@ -36,6 +36,7 @@ linear2f l2_rotate(const float &r) { return linear2f::rotate(r); }
 linear2f l2_scale(const vec2f &s) { return linear2f::scale(s); }
 linear2f l2_mul(const linear2f &a, const linear2f &b) { return a * b; }
 vec2f l2_mulv(const linear2f &a, const vec2f &b) { return a * b; }
+linear2f l2_orthogonal(const linear2f &m) { return m.orthogonal(); }
 // AffineSpace3f
 affine3f a3_rcp(const affine3f &a) { return rcp(a); }
 affine3f a3_mul(const affine3f &a, const affine3f &b) { return a * b; }
